@@ -1941,7 +1941,8 @@ func init() {
 					if op.kind == "restore-blocked" {
 						quiesce(env.ws)
 						for _, o := range t.outs {
-							if o.Type == "file" {
+							// a directory still in the way (the restore refused to replace it) is cleared for the following steps
+							if info, e := os.Lstat(filepath.Join(env.ws, t.pkg, o.Identifier)); o.Type == "file" && e == nil && info.IsDir() {
 								os.RemoveAll(filepath.Join(env.ws, t.pkg, o.Identifier))
 							}
 						}
